@@ -555,6 +555,34 @@ def section_arrays(t: Tally, ctx: Ctx):
             if got != want:
                 t.fail("tagged_field:writer-bytes", f"write_tagged_field(tag={tag}, {len(payload)} bytes) = {got[:12].hex()}.., expected {want[:12].hex()}..",
                        {"fn": "write_tagged_field", "tag": tag, "len": len(payload)})
+    # a tagged field whose value contains a tagged field itself (a tagged struct with its own tagged section, KIP-482)
+    for depth in (2, 3):
+        t.evals += 1
+        t.nontrivial.add(case_hash(("tagged_field_nested", depth)))
+
+        def nested_writer(level):
+            def w(b, v):
+                b.write(b"\x00\x00\x00" + bytes([level]))
+                if level < depth:
+                    W.write_tagged_field(b, 9 + level, nested_writer(level + 1), v)
+                b.write(b"zz")
+            return w
+
+        def nested_ref(level):
+            inner = b"\x00\x00\x00" + bytes([level])
+            if level < depth:
+                payload = nested_ref(level + 1)
+                inner += uvarint(9 + level) + uvarint(len(payload)) + payload
+            return inner + b"zz"
+
+        want = uvarint(5) + uvarint(len(nested_ref(1))) + nested_ref(1)
+        try:
+            got = wr(W.write_tagged_field, 5, nested_writer(1), None)
+        except Exception as e:
+            t.fail(f"tagged_field:nested-raised:{type(e).__name__}", f"write_tagged_field nested {depth} deep raised {e!r}", {"fn": "write_tagged_field", "depth": depth})
+        else:
+            if got != want:
+                t.fail("tagged_field:nested-writer-bytes", f"write_tagged_field nested {depth} deep = {got.hex()}, expected {want.hex()}", {"fn": "write_tagged_field", "depth": depth})
     # read_exact
     from kio.serial.errors import BufferUnderflow
 
